@@ -1,13 +1,22 @@
-(** C03 - property theorems only.  Each is closed by [exact] and followed by
-    [Print Assumptions]. *)
+(** C03 - contract state behaves as an ordered map under every operation history.
+    Property theorems only: each is closed by [exact] and followed by [Print Assumptions].
+
+    Levels.  A = sorted association list [amap] (Radix.v) and the specification machine
+    [s_step] (Locks.v); B = the functional radix tree (Radix.v) and the model machine
+    [m_step] (Locks.v).  The theorems relate B to A for all keys, values and histories.
+    The copy-on-write arena of the implementation is tied to B by the differential
+    correspondence of the check (see design/C03.md). *)
 From Coq Require Import NArith List Bool Sorted.
 From CB Require Import Trie.Radix.
 From CB Require Import Trie.RadixProofs.
+From CB Require Import Trie.PrefixMap.
+From CB Require Import Trie.Locks.
+From CB Require Import Trie.LocksProofs.
 Import ListNotations.
 Local Open Scope N_scope.
 
-(** Each operation of the radix tree is the operation of the ordered map, stated on the
-    lookup function ... *)
+(** ** Each operation of the radix tree is the operation of the ordered map *)
+
 Theorem lookup_insert_spec : forall (V : Type) (t : tree V) k v k',
   wfb t = true ->
   lookup k' (insert k v t) = if list_eqb k k' then Some v else lookup k' t.
@@ -25,3 +34,156 @@ Theorem lookup_delete_prefix_spec : forall (V : Type) (t : tree V) p k',
   lookup_root k' (delete_prefix p t) = if is_prefix p k' then None else lookup k' t.
 Proof. exact (@lookup_delete_prefix). Qed.
 Print Assumptions lookup_delete_prefix_spec.
+
+(** ... and on the denoted sorted association list ([to_list] = in-order traversal). *)
+Theorem lookup_spec : forall (V : Type) (t : tree V) k,
+  wfb t = true -> a_lookup k (to_list t) = lookup k t.
+Proof. exact (@a_lookup_to_list). Qed.
+Print Assumptions lookup_spec.
+
+Theorem insert_spec : forall (V : Type) (r : option (tree V)) k v,
+  wfb_root r = true -> to_list (insert_root k v r) = a_insert k v (to_list_root r).
+Proof. exact (@to_list_insert_root). Qed.
+Print Assumptions insert_spec.
+
+Theorem delete_spec : forall (V : Type) (t : tree V) k,
+  wfb t = true -> to_list_root (delete k t) = a_delete k (to_list t).
+Proof. exact (@to_list_delete). Qed.
+Print Assumptions delete_spec.
+
+Theorem delete_prefix_spec : forall (V : Type) (t : tree V) p,
+  wfb t = true -> to_list_root (delete_prefix p t) = a_delete_prefix p (to_list t).
+Proof. exact (@to_list_delete_prefix). Qed.
+Print Assumptions delete_prefix_spec.
+
+(** Iteration yields exactly the entries under the prefix, in strictly ascending
+    lexicographic order. *)
+Theorem iterate_spec : forall (V : Type) (t : tree V) p,
+  wfb t = true ->
+  StronglySorted (fun a b => lex_ltb a b = true) (map fst (iterate p t))
+  /\ forall k v, In (k, v) (iterate p t) <-> (is_prefix p k = true /\ lookup k t = Some v).
+Proof. exact (@iterate_sorted_exact). Qed.
+Print Assumptions iterate_spec.
+
+(** The denoted list is strictly sorted, and a strictly sorted list is determined by its
+    lookup function (so the tree denotes exactly one ordered map). *)
+Theorem to_list_sorted : forall (V : Type) (t : tree V),
+  wfb t = true -> StronglySorted (fun a b => lex_ltb (fst a) (fst b) = true) (to_list t).
+Proof. exact (@ksorted_to_list). Qed.
+Print Assumptions to_list_sorted.
+
+Theorem sorted_map_canonical : forall (V : Type) (l1 l2 : amap V),
+  StronglySorted (fun a b => lex_ltb (fst a) (fst b) = true) l1 ->
+  StronglySorted (fun a b => lex_ltb (fst a) (fst b) = true) l2 ->
+  (forall k, a_lookup k l1 = a_lookup k l2) -> l1 = l2.
+Proof. exact (@ksorted_ext). Qed.
+Print Assumptions sorted_map_canonical.
+
+(** ** Well-formedness (children strictly sorted, no value-less node with fewer than
+    two children) is preserved by every operation *)
+Theorem wf_preserved : forall (V : Type),
+  (forall (r : option (tree V)) k v, wfb_root r = true -> wfb (insert_root k v r) = true)
+  /\ (forall (t : tree V) k, wfb t = true -> wfb_root (delete k t) = true)
+  /\ (forall (t : tree V) p, wfb t = true -> wfb_root (delete_prefix p t) = true).
+Proof.
+  exact (fun V => conj (@wfb_insert_root V) (conj (@wfb_delete V) (@wfb_delete_prefix V))).
+Qed.
+Print Assumptions wf_preserved.
+
+(** ** Byte strings and nibble strings: [nib] is an embedding for equality, prefix and
+    lexicographic order, so statements about nibble keys are statements about byte keys *)
+Theorem nib_embedding : forall a b,
+  list_eqb (nib a) (nib b) = list_eqb a b
+  /\ is_prefix (nib a) (nib b) = is_prefix a b
+  /\ lex_ltb (nib a) (nib b) = lex_ltb a b
+  /\ unnib (nib a) = a.
+Proof. exact (fun a b => conj (nib_eqb a b) (conj (nib_prefix a b) (conj (nib_lex a b) (unnib_nib a)))). Qed.
+Print Assumptions nib_embedding.
+
+(** ** Histories: for every list of operations (insert / get / read / set / get_mut /
+    delete / delete_prefix / iter / next / delete_iter / new_generation / normalize /
+    freeze / thaw, arbitrary keys and values) the outputs of the model machine are the
+    outputs of the ordered-map specification machine *)
+Theorem history_refines : forall ops : list op, m_run ops m_init = s_run ops s_init.
+Proof. exact history_refines_all. Qed.
+Print Assumptions history_refines.
+
+(** ... and the invariants (well-formed tree, well-formed lock map) hold in every
+    generation after every history. *)
+Theorem wf_every_history : forall ops : list op, m_wf (m_exec ops m_init) = true.
+Proof. exact wf_preserved_all. Qed.
+Print Assumptions wf_every_history.
+
+(** ** Generations.  After [new_generation], any operations that do not roll back below
+    the checkpoint ([keeps]) leave the older generations literally unchanged
+    ([no_leak]), and rolling back restores exactly the state at the checkpoint,
+    including its handles, iterators and locks ([rollback_restores]).  Stated for the
+    model and for the specification. *)
+Theorem no_leak : forall ops (base : state),
+  base <> [] -> Forall (keeps (length base)) ops ->
+  exists newer, newer <> [] /\ m_exec (ONewGen :: ops) base = newer ++ base.
+Proof. exact m_no_leak. Qed.
+Print Assumptions no_leak.
+
+Theorem rollback_restores : forall ops (base : state),
+  base <> [] -> Forall (keeps (length base)) ops ->
+  m_exec (ONewGen :: ops ++ [ONormalize (length base - 1)]) base = base.
+Proof. exact m_rollback_restores. Qed.
+Print Assumptions rollback_restores.
+
+Theorem spec_no_leak : forall ops (base : sstate),
+  base <> [] -> Forall (keeps (length base)) ops ->
+  exists newer, newer <> [] /\ s_exec (ONewGen :: ops) base = newer ++ base.
+Proof. exact s_no_leak. Qed.
+Print Assumptions spec_no_leak.
+
+Theorem spec_rollback_restores : forall ops (base : sstate),
+  base <> [] -> Forall (keeps (length base)) ops ->
+  s_exec (ONewGen :: ops ++ [ONormalize (length base - 1)]) base = base.
+Proof. exact s_rollback_restores. Qed.
+Print Assumptions spec_rollback_restores.
+
+(** ** Non-vacuity: concrete histories exercising the interesting shapes *)
+
+(** odd-nibble split: 0x12 0x34 and 0x12 0x3f differ in the low nibble of the 2nd byte *)
+Example split_at_odd_nibble :
+  let t := insert_root (nib [18; 63]) 2%nat (Some (insert_root (nib [18; 52]) 1%nat None)) in
+  wfb t = true
+  /\ t = Node [1; 2; 3] None (FCons 4 (Node [] (Some 1%nat) FNil) (FCons 15 (Node [] (Some 2%nat) FNil) FNil))
+  /\ map fst (iterate (nib [18]) t) = [nib [18; 52]; nib [18; 63]].
+Proof. vm_compute. repeat split. Qed.
+Print Assumptions split_at_odd_nibble.
+
+(** father and grandfather collapse: deleting 0xab 0xc1 from {0xab 0xc1, 0xab 0xc2}
+    merges the branch node with the remaining leaf, which becomes the root again *)
+Example father_collapse :
+  let t := insert_root (nib [171; 194]) 2%nat (Some (insert_root (nib [171; 193]) 1%nat None)) in
+  delete (nib [171; 193]) t = Some (Node (nib [171; 194]) (Some 2%nat) FNil)
+  /\ delete_root (nib [171; 194]) (delete (nib [171; 193]) t) = None.
+Proof. vm_compute. split; reflexivity. Qed.
+Print Assumptions father_collapse.
+
+Example grandfather_collapse :
+  let t := insert_root (nib [16; 32]) 3%nat (Some (insert_root (nib [16; 17]) 2%nat
+             (Some (insert_root (nib [16; 16]) 1%nat None)))) in
+  wfb t = true
+  /\ to_list_root (delete (nib [16; 32]) t) = [(nib [16; 16], 1%nat); (nib [16; 17], 2%nat)]
+  /\ wfb_root (delete (nib [16; 32]) t) = true
+  /\ delete_root (nib [16; 17]) (delete (nib [16; 32]) t) = Some (Node (nib [16; 16]) (Some 1%nat) FNil).
+Proof. vm_compute. repeat split. Qed.
+Print Assumptions grandfather_collapse.
+
+(** empty key, a 65-byte value, a rollback and a freeze in one history *)
+Example history_with_empty_key_and_long_value :
+  let v65 := repeat 7 65 in
+  m_run [OInsert [] v65; OInsert [0] [1]; ONewGen; ODelete []; OGet []; ONormalize 0; OGet []; OFreeze] m_init
+  = [RHandle 0 false; RHandle 1 false; RGens 2; RBool true; RNone; RGens 1; RFound 2 (Some v65);
+     RDump [([], Some v65); ([0], Some [1])]].
+Proof. vm_compute. reflexivity. Qed.
+Print Assumptions history_with_empty_key_and_long_value.
+
+(** the hypotheses of [rollback_restores] are satisfiable by a non-trivial history *)
+Example rollback_nonvacuous :
+  m_init <> [] /\ Forall (keeps (length m_init)) [OInsert [1] [2]; ONewGen; ODelete [1]; ONormalize 1; OFreeze].
+Proof. split; [discriminate|]. repeat constructor. Qed.
+Print Assumptions rollback_nonvacuous.
